@@ -47,6 +47,14 @@ static CMB_THREAD_LOCAL struct {
 static CMB_THREAD_LOCAL uint64_t initial_seed = DUMMY_SEED;
 
 /*
+ * Cached random bits for cmb_random_flip(). Part of the generator state: must
+ * be emptied whenever the generator is (re)seeded, or the next flips would
+ * come from the stream of the previous seed.
+ */
+static CMB_THREAD_LOCAL uint64_t flip_bits = 0u;
+static CMB_THREAD_LOCAL uint8_t flip_bitpos = 0u;
+
+/*
  * Main pseudo-random number generator - 64-bit output, 256-bit state.
  * An implementation of Chris Doty-Humphrey's sfc64. Fast and high-quality.
  * Public domain, see https://pracrand.sourceforge.net
@@ -94,6 +102,7 @@ static uint64_t splitmix64(void)
 void cmb_random_initialize(const uint64_t seed)
 {
     initial_seed = seed;
+    flip_bitpos = 0u;
     splitmix_initialize(seed);
     prng_state.a = splitmix64();
     prng_state.b = splitmix64();
@@ -115,6 +124,7 @@ void cmb_random_terminate(void) {
     prng_state.c = DUMMY_SEED;
     prng_state.d = DUMMY_SEED;
 
+    flip_bitpos = 0u;
     splitmix_state = DUMMY_SEED;
 }
 
@@ -522,15 +532,12 @@ double cmb_random_PERT_mod(const double min,
 /* Simple flip of a fair unbiased coin, caching bits for efficiency */
 int cmb_random_flip(void)
 {
-    static CMB_THREAD_LOCAL uint64_t bits;
-    static CMB_THREAD_LOCAL uint8_t bitpos = 0;
-
-    if (bitpos == 0) {
-        bits = cmb_random_sfc64();
-        bitpos = 64;
+    if (flip_bitpos == 0) {
+        flip_bits = cmb_random_sfc64();
+        flip_bitpos = 64;
     }
 
-    return ((bits >> --bitpos) & 1) ? 1 : 0;
+    return ((flip_bits >> --flip_bitpos) & 1) ? 1 : 0;
 }
 
 /*
